@@ -1471,6 +1471,27 @@ package mcp
 //@   ensures @requested-version-wins-when-offered result.1 == nil && at(answered, has(offered, wanted)) ==> result.0.ProtocolVersion == wanted
 //@   ensures @otherwise-an-sdk-version result.1 == nil && !at(answered, has(offered, wanted)) ==> sdkSupports(result.0.ProtocolVersion)
 
+// ioConn.Write (newline-delimited framing, C19/C02): a call writes at most one line; the line is the encoding of the
+// message (or of the completed batch) followed by exactly one newline, so the reader's decoder sees one value per
+// line; nothing is written when encoding fails; the transport's write error is what the caller gets.
+//@ func (*ioConn).Write [C19, C02]
+//@   track EncodeMessage as enc
+//@   track marshalMessages as encBatch
+//@   track t.rwc.Write as out
+//@   requires t != nil
+//@   assume forall id jsonrpc2.ID :: {inDom(t.batches, id)} batchOK(t, id)   // the batch table's invariant: established by Read when it registers a batch, kept by updateBatch (both under batchMu)
+//@   assume !typeIs(msg, *jsonrpc.Response) || msg.(*jsonrpc.Response) != nil   // the connection layer never writes a nil response
+//@   modifies *
+//@   ensures @at-most-one-line-per-call calls(out) <= 1 && calls(enc) + calls(encBatch) <= 1 && calls(out) <= calls(enc) + calls(encBatch)
+//@   ensures @nothing-is-written-when-encoding-fails (calls(enc) == 1 && callResult(enc, 1, 1) != nil ==> calls(out) == 0 && result != nil) && (calls(encBatch) == 1 && callResult(encBatch, 1, 1) != nil ==> calls(out) == 0 && result != nil)
+//@   ensures @an-encoded-message-is-written (calls(enc) == 1 && callResult(enc, 1, 1) == nil ==> calls(out) == 1) && (calls(encBatch) == 1 && callResult(encBatch, 1, 1) == nil ==> calls(out) == 1)
+//@   ensures @the-write-error-is-returned calls(out) == 1 ==> result == callResult(out, 1, 1)
+//@   ensures @a-single-message-is-encoded-as-given calls(enc) == 1 ==> callArg(enc, 1, 0) == msg
+//@   assert at call t.rwc.Write: @every-line-ends-with-one-newline len($1) >= 1 && $1[len($1) - 1] == 10
+//@   assert at call t.rwc.Write: @the-line-is-the-encoding-of-the-message calls(enc) == 1 ==> len($1) == len(callResult(enc, 1, 0)) + 1
+//@        && (forall i int :: {absElem($1, off($1) + i)} 0 <= i && i < len(callResult(enc, 1, 0)) ==> $1[i] == callResult(enc, 1, 0)[i])
+//@   assert at call t.rwc.Write: @the-line-is-the-encoding-of-the-batch calls(encBatch) == 1 ==> len($1) == len(callResult(encBatch, 1, 0)) + 1
+//@        && (forall i int :: {absElem($1, off($1) + i)} 0 <= i && i < len(callResult(encBatch, 1, 0)) ==> $1[i] == callResult(encBatch, 1, 0)[i])
 // writeEvent (SSE framing, C19/C08): one event is one write to the exchange; the payload bytes go out exactly as given,
 // once, between "data: " and the blank line that ends the event; the id line is present exactly when the event has an
 // id and comes before the data (a reader that sees the terminating blank line has therefore seen the id), as do the
